@@ -268,6 +268,11 @@ fn run_factory(cx: &CaseCtx, rep: &mut Report, rng: &mut Rng, n: usize, csv_mode
 					format!("id,kind,population\nid1,primary,{cell}\n{cell},secondary,5\n").into_bytes()
 				}
 				3 => rng.bytes_between(0, 119),
+				5 => {
+					// header cells without a name (trailing / doubled / leading separator, quoted empty cell)
+					let t = *rng.pick(&["id,kind,\nid1,primary,\n2,secondary,\n", "id,,kind\nid1,,primary\n", ",id,kind\n,id1,primary\n", "id,\"\",kind\nid1,x,primary\n", ",,,\n,,,\n", "id,kind,,\nid1,a,b,c\n", ",\n,\n"]);
+					t.as_bytes().to_vec()
+				}
 				_ => mutate(csv.as_bytes(), rng, true, &[]),
 			};
 			(valid[4].to_string(), c, "csv-data-file")
@@ -523,7 +528,23 @@ fn tamper_versatiles_index(file: &[u8], rng: &mut Rng) -> Vec<u8> {
 	if raw.is_empty() {
 		return out;
 	}
-	match rng.below(4) {
+	match rng.below(5) {
+		4 => {
+			// a block that announces a larger (still legal) extent than its tile index has entries for
+			let rec = rng.usize_below(raw.len() / 33) * 33;
+			if rec + 13 <= raw.len() {
+				match rng.below(3) {
+					0 => raw[rec + 11] = 255,
+					1 => raw[rec + 12] = 255,
+					_ => {
+						raw[rec + 9] = 0;
+						raw[rec + 10] = 0;
+						raw[rec + 11] = raw[rec + 11].saturating_add(rng.range(1, 40) as u8);
+						raw[rec + 12] = raw[rec + 12].saturating_add(rng.range(1, 40) as u8);
+					}
+				}
+			}
+		}
 		0 => {
 			// field-level corruption inside one 33-byte record
 			let rec = rng.usize_below(raw.len() / 33) * 33;
